@@ -3,7 +3,7 @@ import vlib
 from props import asynclib as al, solverstream as ss, enctie, tracecheck as tc
 
 THEOREMS = ["C09_causal_checker", "C09_once_checker", "C09_exact_checker",
-            "C09_model_once", "C09_model_causal", "C09_model_lazy", "C09_model_exact", "C09_conflict_free_exact"]
+            "C09_model_once", "C09_model_causal", "C09_model_lazy", "C09_model_exact", "C09_conflict_free_exact", "C09_two_solves_once"]
 CHECKER = ("coqc Props/C09.v + Print Assumptions; harness async_cases --kind c09 (no hints; 1-3 solves per solver; sync and "
            "yielding runtimes) -> extracted causalb / onceb / exactb on the provider call history; harness solve_cases (sync, hook "
            "log) -> extracted encoder+cache model enc_solve: provider-call sequence equal call for call, encode requests only "
@@ -31,6 +31,25 @@ def run(res, tier, seed, replay):
         hangs += eh
     enctie.annotate(erecs)
     tc.annotate(erecs)
+    # two solves on one solver: the model's second solve starts from the model's cache after the first
+    if replay:
+        trecs = []
+    else:
+        trecs, th = ss.run_streams([("small", al.NOHINT, "sync", "debug", 300 * k), ("small", 255, "sync", "debug", 300 * k),
+                                    ("conflict", 255, "sync", "debug", 200 * k), ("dense", al.NOHINT, "sync", "release", 150 * k)],
+                                   seed + 89, dump=True, extra_args=["--twice"])
+        hangs += th
+    enctie.annotate_twice(trecs)
+    for r in trecs:
+        if "enc2" not in r:
+            continue
+        res.count([ss.case_key(r["case"]), r["stream"], "enc2"], r["enc2"].get("n_calls", 0) >= 1)
+        if not enctie.ok2(r):
+            res.tie_break(f"encoder/cache correspondence no longer checks for the SECOND solve on one solver in {r['stream']} (theorems "
+                          f"C09_two_solves_once / C09_model_once with the cache of the first solve): {r['enc2']} (no_repeat = a request "
+                          f"of the first solve was made again)",
+                          {"case": r["case"], "second_problem": r.get("p2"), "stream": r["stream"], "encoder_check": r["enc2"],
+                           "first_outcome": r["obs"]["outcome"], "second_outcome": r["obs2"]["outcome"]})
     for r in erecs:
         t = r.get("trace")
         if t and r["stream"].startswith("greedy/") and ss.outcome_kind(r["obs"]["outcome"]) == "sat" and not (
@@ -69,5 +88,5 @@ def run(res, tier, seed, replay):
     res.rule = ("universes without availability hints (classes small/dense/greedy/conflict/fanout), 1-3 solves on one solver "
                 "(same or varied problems), plus 'cancel at poll k, then solve again' for up to 10 poll indices, sync and yielding "
                 "runtimes; non-trivial = run with >= 4 provider requests")
-    res.extra.update({"runs_with_several_solves": n_multi, "exactness_applicable": n_exact, "hangs": len(hangs)}, **enctie.stats(erecs))
+    res.extra.update({"runs_with_several_solves": n_multi, "exactness_applicable": n_exact, "hangs": len(hangs)}, **enctie.stats(erecs), second_solves_compared=sum(1 for r in trecs if "enc2" in r))
     return res.finish(CHECKER, vlib.TRUSTED_BASE, ["the history is what the harness provider logs (harness/src/universe.rs)"])
